@@ -659,4 +659,6 @@ def run(ctx, rep):
     # families shared with other properties (necessary conditions of a lossless round trip as well)
     from rules import iolib, C03
     iolib.count_rules(ctx, rep, "C01")
-    C03.run(ctx, SubReport(rep, "C03", "C01.dec", only=r"^C03\.(wide|rfc)$"))
+    compose(ctx, rep, "C03", "C01.dec", r"^C03\.(wide|rfc)$")
+    from rules import C07 as _C07
+    compose(ctx, rep, "C07", "C01.conv", r"^C07\.endian$")
